@@ -39,6 +39,13 @@ theorem decode_welltyped (t : Ty) (s : List Nat) (v : Val) (hc : Canon s) (h : d
   TF.Codec.decode_hasTy t s v hc h
 example : Canon [2, 2, 1, 5, 3, 2, 6, 18446744069414584320] := by decide
 
+/-- … and conversely every encoding (of a type that can be written in Rust, `wf`; shorter than `P` elements) consists
+    of canonical elements, so the two directions compose: `decode_welltyped`/C13 apply to every encoding. -/
+theorem encode_canonical (t : Ty) (v : Val) (hv : HasTy t v) (hz : NoZeroWidthItems t) (hw : wf t = true)
+    (hb : (encode t v).length < P) : Canon (encode t v) :=
+  TF.Codec.encode_canon t v hv hz hw hb
+example : wf (.tuple [.vec (.option .u64), .enum [[], [.poly .bfe]]]) = true := by decide
+
 /-- **Encoding is injective** on the values of a type. -/
 theorem encode_injective (t : Ty) (v₁ v₂ : Val) (h₁ : HasTy t v₁) (h₂ : HasTy t v₂) (hz : NoZeroWidthItems t)
     (hb : (encode t v₁).length < 2^64) (he : encode t v₁ = encode t v₂) : v₁ = v₂ := by
